@@ -243,3 +243,62 @@ example : (truncate [1,2,3,4,5,6,7,8,9,10,11,12] 8 6)[(displayCol [1,2,3,4,5,6,7
     = some 6 := by decide
 
 end GGV.Props.C19
+
+namespace GGV.Props.C19
+open GGV.Model
+
+/-! ## the gutter: every numbered row and the caret row start the text at the same column -/
+
+theorem natDigits_length (n : Nat) :
+    (natDigits n).length = if n < 10 then 1 else (natDigits (n / 10)).length + 1 := by
+  rw [natDigits]
+  split <;> simp
+
+theorem natDigits_length_pos (n : Nat) : 1 ≤ (natDigits n).length := by
+  rw [natDigits_length]; split <;> omega
+
+/-- more digits are never needed for a smaller number -/
+theorem natDigits_length_mono : ∀ (m n : Nat), n ≤ m → (natDigits n).length ≤ (natDigits m).length := by
+  intro m
+  induction m using Nat.strongRecOn with
+  | _ m ih =>
+    intro n hnm
+    rw [natDigits_length n, natDigits_length m]
+    by_cases hn : n < 10
+    · simp only [hn, if_true]
+      split
+      · omega
+      · have := natDigits_length_pos (m / 10); omega
+    · have hm : ¬ m < 10 := by omega
+      simp only [hn, hm, if_false]
+      have := ih (m / 10) (by omega) (n / 10) (Nat.div_le_div_right hnm)
+      omega
+
+theorem le_foldl_max (l : List (Nat × Bytes)) (init : Nat) :
+    init ≤ l.foldl (fun m p => max m p.1) init ∧ ∀ p ∈ l, p.1 ≤ l.foldl (fun m p => max m p.1) init := by
+  induction l generalizing init with
+  | nil => simp
+  | cons a r ih =>
+    simp only [List.foldl_cons]
+    obtain ⟨h1, h2⟩ := ih (max init a.1)
+    refine ⟨by omega, ?_⟩
+    intro p hp
+    simp only [List.mem_cons] at hp
+    rcases hp with rfl | hp
+    · omega
+    · exact h2 p hp
+
+/-- **gutter alignment**: with `w` the digit count of the largest line number of the excerpt, every numbered row
+    `%*d | ` and the caret row `spaces | ` put the line's text at the same offset `w + 3` — so the caret, which stands
+    `displayCol - 1` places into its row's text, is under byte `displayCol - 1` of the reported row's text
+    (`caret_under_char`), whatever the line numbers (9 vs 10, 99 vs 100, …) -/
+theorem gutter_aligned (win : List (Nat × Bytes)) (p : Nat × Bytes) (hp : p ∈ win) :
+    let w := (natDigits (win.foldl (fun m q => max m q.1) 0)).length
+    (padNum w p.1 ++ str " | ").length = (spaces w ++ str " | ").length := by
+  intro w
+  have hle : p.1 ≤ win.foldl (fun m q => max m q.1) 0 := (le_foldl_max win 0).2 p hp
+  have hd : (natDigits p.1).length ≤ w := natDigits_length_mono _ _ hle
+  simp only [padNum, spaces, List.length_append, List.length_replicate]
+  omega
+
+end GGV.Props.C19
